@@ -5,7 +5,7 @@ Decides from the syntax tree / CFG of hailtop/aiotools/weighted_semaphore.py and
                  wake-up (`event.set()`), the removal of the waiter and the decrement of *that waiter's* weight go together, and the
                  (n, event) layout agrees between acquire (writer) and release (reader)
   R2 pairing     _AcquireManager acquires and releases the same stored weight, releases unconditionally on exit;
-                 every use of the transfer semaphore in copier.py is `async with ….acquire_manager(w)` (or construction / hand-over)
+                 every use of the transfer semaphore in copier.py is `async with ....acquire_manager(w)` (or construction / hand-over)
   R3 cancellation every `await` that follows the registration of a waiter (`self.events.add`) has, on its CancelledError exit,
                  a clean-up that deregisters the waiter and hands back a weight that was already granted
   R4 precondition weights requested in copier.py are bounded by the capacity the semaphore is built with
@@ -265,14 +265,14 @@ def _copier(ctx: Ctx) -> None:
                 if call.args:  # type: ignore[union-attr]
                     weights.append((q, call.args[0], n.lineno))  # type: ignore[union-attr]
         elif isinstance(p, ast.Call) and any(a is n for a in p.args):
-            ctx.ok('R2', f'{CP}::{q}::{pf.nsrc(p.func)}(…, {pf.nsrc(n)}, …)', 'handed over')
+            ctx.ok('R2', f'{CP}::{q}::{pf.nsrc(p.func)}(..., {pf.nsrc(n)}, ...)', 'handed over')
         elif isinstance(p, ast.Attribute) and p.value is n and p.attr == 'acquire' and isinstance(par.get(p), ast.Call):
             # manual acquire: must be a statement `await X.acquire(w)` directly followed by try/finally releasing the same weight
             call = par[p]
             cons = f'{CP}::{q}::{pf.nsrc(call)}'
             aw = par.get(call)
             stmt = par.get(aw) if isinstance(aw, ast.Await) else None
-            ctx.need(isinstance(stmt, ast.Expr), f'{cons}: manual acquire is not a plain `await ….acquire(w)` statement')
+            ctx.need(isinstance(stmt, ast.Expr), f'{cons}: manual acquire is not a plain `await ....acquire(w)` statement')
             holder = par.get(stmt)
             sibs = None
             for fld in ('body', 'orelse', 'finalbody'):
